@@ -7,7 +7,8 @@
    mac, source address src; bindings are RAW map values (bytes 0..3 IPv4 in network order, 4..19 IPv6,
    20/21 valid flags, 22 mode). *)
 From Coq Require Import NArith List Lia.
-From Verif Require Import Base.Word Model.TcQos Model.TcAntispoof Model.AntispoofMgr Model.TcAntispoofSpec Proofs.TcAntispoofProofs.
+From Verif Require Import Base.Word Model.TcQos Model.TcAntispoofC Model.TcAntispoof Model.AntispoofMgr Model.TcAntispoofSpec
+  Proofs.TcAntispoofCProofs Proofs.TcAntispoofProofs.
 Import ListNotations.
 Local Open Scope N_scope.
 
@@ -42,6 +43,10 @@ Print Assumptions C18_short_frame_forwards.
 Theorem C18_truncated_ipv4_forwards : forall m f, (length f < 34)%nat -> rd f 12 2 = Some [8; 0] -> forwards m f.
 Proof. exact truncated_ip_forwards. Qed.
 Print Assumptions C18_truncated_ipv4_forwards.
+
+Theorem C18_truncated_ipv6_forwards : forall m f, (length f < 54)%nat -> rd f 12 2 = Some [134; 221] -> forwards m f.
+Proof. exact truncated_ipv6_forwards. Qed.
+Print Assumptions C18_truncated_ipv6_forwards.
 
 Theorem C18_never_reads_outside_the_frame : forall m f, verdict_of m f <> AOob.
 Proof. exact never_oob. Qed.
@@ -97,6 +102,132 @@ Theorem C18_v6_binding_survives_partial : forall s mac ip4 ip6 f,
   forwards (maps (after s [AddBinding mac ip4; AddBindingV6 mac ip6])) f.
 Proof. exact v6_binding_survives_partial. Qed.
 Print Assumptions C18_v6_binding_survives_partial.
+
+(* ---- key and field derivations: the C expressions with the C type of every intermediate value
+   (Model/TcAntispoofC.v) against the Go expressions of the manager, for ALL 2^48 MACs / all byte values *)
+(* the key the program looks up (mac_to_u64 with its per-octet __u64 casts, 8 bytes in memory) is the key the
+   manager writes (macToUint64, marshalled natively) - for every list, no side condition *)
+Theorem C18_mac_key_c_equals_go : forall mac, mac_key mac = go_mac_key mac.
+Proof. exact mac_key_c_equals_go. Qed.
+Print Assumptions C18_mac_key_c_equals_go.
+
+(* ... and it is the MAC as a 48-bit big-endian number in a little-endian u64 (the form the harness writes raw
+   entries under) *)
+Theorem C18_mac_key_is_mac48 : forall mac, length mac = 6%nat -> wf_bytes mac -> mac_key mac = rev mac ++ [0; 0].
+Proof. exact mac_key_is_mac48. Qed.
+Print Assumptions C18_mac_key_is_mac48.
+
+Theorem C18_mac_key_injective : forall a b,
+  length a = 6%nat -> length b = 6%nat -> wf_bytes a -> wf_bytes b -> mac_key a = mac_key b -> a = b.
+Proof. exact mac_key_injective. Qed.
+Print Assumptions C18_mac_key_injective.
+
+(* the typed semantics is not vacuous: the same expression with int shifts (no per-octet cast) sign-extends when
+   octet 2 has its top bit set and agrees otherwise *)
+Example C18_int_shifts_would_sign_extend :
+  c_mac_to_u64_int_shifts [2; 17; 162; 51; 68; 85] = 18446744072135853141 /\
+  c_mac_to_u64 [2; 17; 162; 51; 68; 85] = 2274758968405 /\
+  c_mac_to_u64_int_shifts [2; 17; 127; 51; 68; 85] = c_mac_to_u64 [2; 17; 127; 51; 68; 85].
+Proof. exact int_shifts_sign_extend. Qed.
+
+(* a binding written through the manager is found for frames from that MAC - every 6-byte MAC, any prior state *)
+Theorem C18_binding_found_for_its_mac : forall s mac ip, length mac = 6%nat ->
+  binding_of (maps (after s [AddBinding mac ip])) mac <> None /\
+  binding_of (maps (after s [AddBindingV6 mac ip])) mac <> None.
+Proof. exact add_binding_found_for_its_mac. Qed.
+Print Assumptions C18_binding_found_for_its_mac.
+
+(* ... and leaves what any other sender is judged against untouched *)
+Theorem C18_binding_other_mac_untouched : forall s mac mac' ip,
+  length mac = 6%nat -> length mac' = 6%nat -> wf_bytes mac -> wf_bytes mac' -> mac' <> mac ->
+  binding_of (maps (after s [AddBinding mac ip])) mac' = binding_of (maps s) mac' /\
+  binding_of (maps (after s [AddBindingV6 mac ip])) mac' = binding_of (maps s) mac'.
+Proof. exact add_binding_other_mac_untouched. Qed.
+Print Assumptions C18_binding_other_mac_untouched.
+
+(* ---- all control-plane histories from the initial state *)
+(* a removal takes effect exactly as written: afterwards the program finds no binding for that MAC and the default
+   mode decides (the Model's map keeps one entry per key, like the kernel hash map - invariant over all histories) *)
+Theorem C18_remove_binding_takes_effect : forall ops mac, length mac = 6%nat ->
+  let s := after init ops in
+  binding_of (maps (after s [RemoveBinding mac])) mac = None /\
+  eff_mode (maps (after s [RemoveBinding mac])) mac = default_mode (maps s).
+Proof. exact remove_binding_takes_effect. Qed.
+Print Assumptions C18_remove_binding_takes_effect.
+
+Theorem C18_remove_binding_other_mac_untouched : forall s mac mac',
+  length mac = 6%nat -> length mac' = 6%nat -> wf_bytes mac -> wf_bytes mac' -> mac' <> mac ->
+  binding_of (maps (after s [RemoveBinding mac])) mac' = binding_of (maps s) mac'.
+Proof. exact remove_binding_other_mac_untouched. Qed.
+Print Assumptions C18_remove_binding_other_mac_untouched.
+
+(* strict IPv6 through the manager - FULL, after any history (every map value is a 24-byte struct: invariant) *)
+Theorem C18_v6_binding_takes_effect : forall ops mac ip6 f src,
+  length mac = 6%nat -> length ip6 = 16%nat -> mgr_mode (after init ops) = MODE_STRICT -> v6_frame f mac src ->
+  (forwards (maps (after (after init ops) [AddBindingV6 mac ip6])) f <-> src = ip6).
+Proof. exact v6_binding_takes_effect. Qed.
+Print Assumptions C18_v6_binding_takes_effect.
+
+(* strict IPv4 through the manager exactly as coded, every address (K18a in general): the admitted source is the
+   byte-reversed address; C18_binding_takes_effect_partial is the palindromic corollary *)
+Theorem C18_binding_effect_as_coded : forall s mac ip f src,
+  length mac = 6%nat -> length ip = 4%nat -> mgr_mode s = MODE_STRICT -> v4_frame f mac src ->
+  (forwards (maps (after s [AddBinding mac ip])) f <-> src = rev ip).
+Proof. exact binding_effect_as_coded. Qed.
+Print Assumptions C18_binding_effect_as_coded.
+
+(* ---- modes through the manager *)
+Theorem C18_set_mode_takes_effect : forall s m mac, binding_of (maps s) mac = None ->
+  eff_mode (maps (after s [SetMode m])) mac = N.land m 255 /\ mgr_mode (after s [SetMode m]) = N.land m 255.
+Proof. exact set_mode_takes_effect. Qed.
+Print Assumptions C18_set_mode_takes_effect.
+
+(* "in log-only mode it is always forwarded", through the control plane: any frame of any sender without a binding *)
+Theorem C18_log_only_default_forwards_unbound : forall s f,
+  (forall mac, rd f 6 6 = Some mac -> binding_of (maps s) mac = None) -> forwards (maps (after s [SetMode 3])) f.
+Proof. exact log_only_default_forwards_unbound. Qed.
+Print Assumptions C18_log_only_default_forwards_unbound.
+
+(* the mode in force for a subscriber is the manager's mode when its binding was last written *)
+Theorem C18_add_binding_mode : forall s mac ip, length mac = 6%nat ->
+  eff_mode (maps (after s [AddBinding mac ip])) mac = mgr_mode s.
+Proof. exact add_binding_mode. Qed.
+Print Assumptions C18_add_binding_mode.
+
+Theorem C18_add_binding_v6_mode : forall ops mac ip, length mac = 6%nat ->
+  eff_mode (maps (after (after init ops) [AddBindingV6 mac ip])) mac = mgr_mode (after init ops).
+Proof. exact add_binding_v6_mode. Qed.
+Print Assumptions C18_add_binding_v6_mode.
+
+(* the comparisons of the program, as C computes them (little-endian loads, integer promotion, the 16-round loop
+   with early break, bpf_htons of a constant, the LPM key struct), are the byte-wise forms used by antispoof_prog *)
+Theorem C18_c_ethertype_tests : forall p, length p = 2%nat -> wf_bytes p ->
+  c_proto_is p 2048 = bytes_eqb p [8; 0] /\ c_proto_is p 34525 = bytes_eqb p [134; 221].
+Proof. exact c_ethertype_tests. Qed.
+Print Assumptions C18_c_ethertype_tests.
+
+Theorem C18_c_saddr_compare : forall src bound,
+  length src = 4%nat -> length bound = 4%nat -> wf_bytes src -> wf_bytes bound -> c_saddr_eq src bound = bytes_eqb src bound.
+Proof. exact c_saddr_eq_bytes. Qed.
+Print Assumptions C18_c_saddr_compare.
+
+Theorem C18_c_ipv6_loop_compare : forall a b,
+  length a = 16%nat -> length b = 16%nat -> wf_bytes a -> wf_bytes b -> c_ip6_eq a b = bytes_eqb a b.
+Proof. exact c_ip6_eq_bytes. Qed.
+Print Assumptions C18_c_ipv6_loop_compare.
+
+Theorem C18_c_lpm_lookup_key : forall src, length src = 4%nat -> wf_bytes src -> c_lpm_lookup_key src = [32; 0; 0; 0] ++ src.
+Proof. exact c_lpm_lookup_key_bytes. Qed.
+Print Assumptions C18_c_lpm_lookup_key.
+
+Example C18_high_octet_mac_found :
+  wf_bytes mac_hi /\ length mac_hi = 6%nat /\
+  mac_key mac_hi = [213; 196; 179; 162; 145; 130; 0; 0] /\
+  forwards (maps (after init [AddBinding mac_hi [10;1;1;10]]))
+           ([255;255;255;255;255;255] ++ mac_hi ++ [8;0] ++ [69;0;0;40;0;0;0;0;64;17;0;0] ++ [10;1;1;10] ++ [192;0;2;1]) /\
+  drops (maps (after init [AddBinding mac_hi [10;1;1;10]]))
+        ([255;255;255;255;255;255] ++ mac_hi ++ [8;0] ++ [69;0;0;40;0;0;0;0;64;17;0;0] ++ [10;1;1;11] ++ [192;0;2;1]).
+Proof. exact add_binding_high_octets. Qed.
 
 (* non-vacuity: the hypotheses are satisfiable by concrete frames and states *)
 Example C18_frames_exist :
